@@ -31,6 +31,47 @@ using std::swap;
 
 #define KLUDGE
 
+#ifdef XFEMM_VERIF
+// Verification hooks (guarded; no effect unless the environment variables are set):
+//  XFEMM_VERIF_DUMPSYS=<file>  : append the system handed to PCGSolve (stored entries and b) as hex doubles
+//  XFEMM_VERIF_SOLVELOG=<file> : append (n, Precision, true relative residual |b-AV|/|b|, return code) at solver exit
+#include <cstring>
+#include <stdint.h>
+namespace {
+unsigned long long xfemmVerifBits(double d) { uint64_t u; memcpy(&u,&d,8); return (unsigned long long)u; }
+void xfemmVerifDumpSystem(CBigLinProb &L)
+{
+    const char *fn = getenv("XFEMM_VERIF_DUMPSYS");
+    if (!fn) return;
+    FILE *fp = fopen(fn,"at");
+    if (!fp) return;
+    fprintf(fp,"SYS real %i %i\n", L.n, L.bdw);
+    for (int i=0; i<L.n; i++)
+        for (CEntry *e=L.M[i]; e!=NULL; e=e->next)
+            fprintf(fp,"E %i %i x%016llX\n", i, e->c, xfemmVerifBits(e->x));
+    for (int i=0; i<L.n; i++)
+        fprintf(fp,"B %i x%016llX\n", i, xfemmVerifBits(L.b[i]));
+    fprintf(fp,"END\n");
+    fclose(fp);
+}
+void xfemmVerifLogResidual(CBigLinProb &L, int rc)
+{
+    const char *fn = getenv("XFEMM_VERIF_SOLVELOG");
+    if (!fn) return;
+    // private scratch: MultA would overwrite nothing of the solver state, but keep R/U/Z untouched anyway
+    double *Y = (double *)calloc(L.n,sizeof(double));
+    L.MultA(L.V,Y);
+    double rr=0, bb=0;
+    for (int i=0; i<L.n; i++) { double d=L.b[i]-Y[i]; rr+=d*d; bb+=L.b[i]*L.b[i]; }
+    free(Y);
+    FILE *fp = fopen(fn,"at");
+    if (!fp) return;
+    fprintf(fp,"SOLVE real n=%i precision=%.17g relres=%.17g rc=%i\n", L.n, L.Precision, (bb>0)? sqrt(rr/bb) : sqrt(rr), rc);
+    fclose(fp);
+}
+}
+#endif
+
 
 CEntry::CEntry()
 {
@@ -235,7 +276,18 @@ void CBigLinProb::MultPC(const double *X, double *Y)
     }
 }
 
+#ifdef XFEMM_VERIF
 bool CBigLinProb::PCGSolve(int flag)
+{
+    xfemmVerifDumpSystem(*this);
+    bool rc = PCGSolveImpl(flag);
+    xfemmVerifLogResidual(*this, rc);
+    return rc;
+}
+bool CBigLinProb::PCGSolveImpl(int flag)
+#else
+bool CBigLinProb::PCGSolve(int flag)
+#endif
 {
     int i;
     double res,res_o,res_new;
